@@ -348,6 +348,28 @@ CLAIMED = {
             'stubbed as_completed) driving the real result-reassembly code, '
             'compared with the serial run and with set-theoretic '
             'refinement invariants'),
+    'C20': ('3/C20',
+            'Decided symbolically (NRA, all real sma>0, step in (0,1], both '
+            'growth laws): update_sma grows strictly, reset_sma is its '
+            'inverse and the inward sequence shrinks strictly (and stays '
+            'positive for geometric growth). Checked as concrete oracles '
+            'over solver-enumerated configurations (frames incl. wide with '
+            'x0 > ny and tall, eps, PA, growth law, minsma/maxsma, fix_* '
+            'flags, start offset, repeated calls): the isophote list is '
+            'sorted by strictly increasing sma within the requested range, '
+            'minsma=0 adds the central isophote, fixed parameters are '
+            'honoured (1e-12), well-sampled isophotes recover centre, eps, '
+            'PA and intensity within stated tolerances, build_ellipse_model '
+            'reproduces the image inside the fitted region, the image is '
+            'untouched, a later fit_image call equals a fresh object, and '
+            'the scalar and array forms of to_polar agree on a lattice for '
+            '11 position angles incl. negative ones.',
+            'only the growth arithmetic is a solver proof within bounds; '
+            'the harmonic fit itself (float least squares, arctan) has no '
+            'decision procedure here and is exercised concretely',
+            'SMT (z3 NRA) for the growth arithmetic; solver-enumerated '
+            'configuration vectors with concrete rendered-truth oracles for '
+            'the fit'),
 }
 
 NOT_YET = {}
